@@ -34,6 +34,7 @@ Setup == <<
   EAsg("small", ELam(<<Req("x")>>, EBin("lt", X, N(2)))),
   EAsg("first", ELam(<<Req("x"), Req("i")>>, EBin("eq", I, N(0)))),
   EAsg("notbool", ELam(<<Req("x")>>, X)),
+  EAsg("nullp", ELam(<<Req("x")>>, EIf(EBin("lt", X, N(2)), True, ELit(Null)))),       \* true for some elements, no answer for the others
   EAsg("failing", ELam(<<Req("x")>>, EIf(EBin("eq", X, N(2)), EId("zz"), X))),
   EAsg("acc2", ELam(<<Req("a"), Req("x")>>, Plus(EBin("mul", EId("a"), N(2)), X))),
   EAsg("acc3", ELam(<<Req("a"), Req("x"), Req("i")>>, Plus(Plus(EId("a"), X), I))),
@@ -44,7 +45,7 @@ Setup == <<
   EAsg("accl", ELam(<<Req("a"), Req("x")>>, Plus(EId("a"), ECall(EId("len"), <<EList(<<X, EId("a")>>)>>))))
 >>
 Mappers    == {"inc", "withidx", "optidx", "restall", "restafter", "closure", "fact", "sum", "max", "len", "two", "failing", "g"}
-Predicates == {"small", "first", "isev", "isod", "notbool", "failing", "inc", "allocp"}
+Predicates == {"small", "first", "isev", "isod", "notbool", "failing", "inc", "allocp", "nullp"}
 Reducers   == {"acc2", "acc3", "restall", "sum", "inc", "accl"}
 
 ElemPool == {0, 1, 2, 3}
